@@ -80,20 +80,28 @@ let do_classify b pres t =
    | None -> Buffer.add_string b "M"
    | Some l -> List.iter (fun m -> Buffer.add_string b (letter m)) l);
   Buffer.add_string b " args=";
+  let tl = TAgg (false, [(MNamed, TBasic KLong)]) and td = TAgg (false, [(MNamed, TBasic KDouble)]) in
   List.iteri (fun i (nl, nd) ->
-    let ((k, _), _) = pass_aggregate_arg t (z_of_int nl) (z_of_int nd) in
-    Buffer.add_string b (Printf.sprintf "%sblk%d:%d" (if i > 0 then ";" else "") (int_of_z k) size)) pres;
+    (* the aggregate, then struct{long} and struct{double}, threading the register counters *)
+    let ((k, ni), nf) = pass_aggregate_arg t (z_of_int nl) (z_of_int nd) in
+    let ((k1, ni), nf) = pass_aggregate_arg tl ni nf in
+    let ((k2, _), _) = pass_aggregate_arg td ni nf in
+    Buffer.add_string b (Printf.sprintf "%sblk%d:%d+blk%d:8+blk%d:8" (if i > 0 then ";" else "")
+                           (int_of_z k) size (int_of_z k1) (int_of_z k2))) pres;
   Buffer.add_string b " | ret=";
   (match sysv_return t with
    | None -> Buffer.add_string b "M"
    | Some l -> List.iter (fun r -> Buffer.add_string b (match r with RInt -> "I" | RSse -> "S" | RX87 -> "X")) l);
   Buffer.add_string b " args=";
-  List.iteri (fun i (nl, nd) ->
-    let ((r, _), _) = sysv_pass_arg t (z_of_int nl) (z_of_int nd) in
-    if i > 0 then Buffer.add_string b ";";
-    match r with
+  let show r = match r with
     | None -> Buffer.add_string b "M"
-    | Some l -> List.iter (fun p -> Buffer.add_string b (match p with InInt -> "I" | InSse -> "S" | InNone -> "n")) l) pres
+    | Some l -> List.iter (fun p -> Buffer.add_string b (match p with InInt -> "I" | InSse -> "S" | InNone -> "n")) l in
+  List.iteri (fun i (nl, nd) ->
+    let ((r, ni), nf) = sysv_pass_arg t (z_of_int nl) (z_of_int nd) in
+    let ((r1, ni), nf) = sysv_pass_arg tl ni nf in
+    let ((r2, _), _) = sysv_pass_arg td ni nf in
+    if i > 0 then Buffer.add_string b ";";
+    show r; Buffer.add_string b "+"; show r1; Buffer.add_string b "+"; show r2) pres
 
 let () =
   try
